@@ -430,6 +430,108 @@ void run(int nreq, bool pipelined)
   delete srv;
   mc_quiesce();
 }
+
+// ---------------------------------------------------------------- requests that cannot be parsed
+// "a request that cannot be parsed yields an error status or a closed connection - never a connection left waiting
+// with neither".  One connection, optionally one good request first, then one request from this list; every byte of it
+// is on the wire.  Oracle: at quiescence (600 ms of virtual time later) the client has a complete response for it, or
+// the connection was closed.  (Whether a lenient server answers 200 to some of them is not judged.)
+struct BadReq
+{
+  const char *name;
+  const char *wire;
+};
+const BadReq BAD[] = {
+  {"request-line", "NOT A REQUEST LINE\r\n\r\n"},
+  {"chunk-data-without-crlf", "POST /echo HTTP/1.1\r\nHost: x\r\nTransfer-Encoding: chunked\r\n\r\n5\r\nhelloXY0\r\n\r\n"},
+  {"chunk-size-garbage", "POST /echo HTTP/1.1\r\nHost: x\r\nTransfer-Encoding: chunked\r\n\r\nzz\r\nhello\r\n0\r\n\r\n"},
+  {"chunk-size-17-digits", "POST /echo HTTP/1.1\r\nHost: x\r\nTransfer-Encoding: chunked\r\n\r\n10000000000000005\r\nhello\r\n0\r\n\r\n"},
+  {"chunk-size-negative", "POST /echo HTTP/1.1\r\nHost: x\r\nTransfer-Encoding: chunked\r\n\r\n-5\r\nhello\r\n0\r\n\r\n"},
+  {"content-length-garbage", "POST /echo HTTP/1.1\r\nHost: x\r\nContent-Length: 3x\r\n\r\nabc"},
+  {"content-length-negative", "POST /echo HTTP/1.1\r\nHost: x\r\nContent-Length: -3\r\n\r\nabc"},
+  {"content-length-twice-differs", "POST /echo HTTP/1.1\r\nHost: x\r\nContent-Length: 3\r\nContent-Length: 4\r\n\r\nabcd"},
+  {"http-version-garbage", "GET /f1 HTTX/1.1\r\nHost: x\r\n\r\n"},
+  {"header-without-colon", "GET /f1 HTTP/1.1\r\nHost: x\r\nBadHeaderLine\r\n\r\n"},
+  {"empty-method", " /f1 HTTP/1.1\r\nHost: x\r\n\r\n"},
+};
+const int N_BAD = int(sizeof BAD / sizeof BAD[0]);
+
+void badRequests()
+{
+  mc_label("main:http-bad");
+  simk_cfg.tcpRcvBuf = 8192;
+  simk_cfg.shortIo = false;
+  int v = mc_choose(N_BAD, MC_FREE);
+  int preceded = mc_choose(2, MC_FREE);
+  auto *srv = new HttpServer("127.0.0.1", 8080);
+  srv->onGet("/f1", [](const HttpServer::Request &, HttpServer::Response &res) { res.set_content("f1", "text/plain"); });
+  srv->onPost("/echo", [](const HttpServer::Request &rq, HttpServer::Response &res) { res.set_content(rq.body, "text/plain"); });
+  srv->start();
+  mc_quiesce();
+  int c = ::socket(AF_INET, SOCK_STREAM | SOCK_NONBLOCK, 0);
+  sockaddr_in a = addr("127.0.0.1", 8080);
+  ::connect(c, (sockaddr *)&a, sizeof a);
+  mc_quiesce();
+  std::string got;
+  bool eof = false;
+  auto settle = [&]()
+  {
+    for (int i = 0; i < 6; ++i)
+    {
+      mc_quiesce(100ull * 1000000ull);
+      char b[4096];
+      for (;;)
+      {
+        ssize_t r = ::recv(c, b, sizeof b, 0);
+        if (r > 0)
+          got.append(b, size_t(r));
+        else
+        {
+          if (r == 0)
+            eof = true;
+          break;
+        }
+      }
+    }
+  };
+  size_t expectResponses = 1;
+  if (preceded)
+  {
+    std::string g = "GET /f1 HTTP/1.1\r\nHost: x\r\n\r\n";
+    ::send(c, g.data(), g.size(), 0);
+    settle();
+    expectResponses = 2;
+  }
+  std::string w = BAD[v].wire;
+  if (!eof)
+    ::send(c, w.data(), w.size(), 0);
+  settle();
+  // count complete responses in the stream (status line + Content-Length framed body)
+  size_t responses = 0, pos = 0;
+  while (pos < got.size())
+  {
+    size_t he = got.find("\r\n\r\n", pos);
+    if (he == std::string::npos || got.compare(pos, 5, "HTTP/") != 0)
+      break;
+    std::string head = got.substr(pos, he - pos);
+    size_t cl = 0;
+    size_t k = head.find("Content-Length:");
+    if (k != std::string::npos)
+      cl = size_t(atoi(head.c_str() + k + 15));
+    if (got.size() < he + 4 + cl)
+      break;
+    ++responses;
+    pos = he + 4 + cl;
+  }
+  mc_obs("bad=%s preceded=%d responses=%zu eof=%d bytes=%zu", BAD[v].name, preceded, responses, int(eof), got.size());
+  if (responses < expectResponses && !eof)
+    mc_violation("bad-request", std::string("unparsable-request-left-waiting:") + BAD[v].name,
+                 std::string("request '") + BAD[v].name + "' got neither a response nor a closed connection within 600 ms (" + (preceded ? "after one good request" : "first request") + ")");
+  ::close(c);
+  mc_quiesce();
+  srv->stop();
+  delete srv;
+}
 } // namespace
 
 int main(int argc, char **argv)
@@ -463,6 +565,19 @@ int main(int argc, char **argv)
     m.thorough.total = s.tTotal;
     m.horizon_s = 120;
     m.weight = s.weight;
+    v.push_back(m);
+  }
+  {
+    McScenario m;
+    m.name = "bad_requests";
+    m.body = []() { badRequests(); };
+    m.quick.P = 1;
+    m.quick.S = 1;
+    m.quick.T = 0;
+    m.quick.total = 0;
+    m.thorough = m.quick;
+    m.thorough.total = 1;
+    m.horizon_s = 120;
     v.push_back(m);
   }
   return mc_main(argc, argv, "C16_http_server", v);
